@@ -643,12 +643,19 @@ package prunner
 //@   loop 2 invariant [lists] (forall p string :: freshOrNil(r.jobsByPipeline[p]) && wf(r.jobsByPipeline[p]) && all(r.jobsByPipeline[p], terminalJob)) && (forall p string :: !(p in r.waitListByPipeline)) && (forall id uuid.UUID :: (id in r.jobsByID) ==> terminalJob(r.jobsByID[id]))
 //@   loop 2 invariant [sep] forall p string, q string :: p != q && base(r.jobsByPipeline[p]) != 0 ==> base(r.jobsByPipeline[p]) != base(r.jobsByPipeline[q])
 
+// the persist loop owes the store a save for every request it takes from the channel
+//@ ghost $saveOwed scalar Bool
 //@ func NewPipelineRunner
 //@   safety
 //@   lockmode any
+//@   at after (*PipelineRunner).initialLoadFromStore#1: ghost $saveOwed := false
 //@ func NewPipelineRunner$1
 //@   lockmode none
 //@   loop 1 invariant [held] $held == 0
+//@   at recv persistRequests#1: ghost $saveOwed := true
+//@   at after (*PipelineRunner).SaveToStore#1: ghost $saveOwed := false
+//@   requires [ghostInit] !$saveOwed
+//@   loop 1 invariant [C11.requestServed] !$saveOwed
 
 // Only these functions contain a store to the life-cycle fields of a job (checked by a scan of every
 // store instruction of the package; bridge B2 relies on it).
@@ -678,7 +685,7 @@ package prunner
 //@ property C06: prunner.*/ensures[C06.*] prunner.(*PipelineRunner).ScheduleAsync/ensures[C05.queue] prunner.(*PipelineRunner).ScheduleAsync/ensures[C05.replace] prunner.(*PipelineRunner).ScheduleAsync/ensures[C05.start] prunner.(*PipelineRunner).startJobsOnWaitList/loop* prunner.*/call-pre[(*PipelineRunner).startJob.offList]* prunner.removeJobFromWaitList/* prunner.*/monitor[RI] prunner.*/ensures[C12.waitLists] prunner.(*PipelineRunner).startJobsOnWaitList/* prunner.(*PipelineRunner).startJob/* prunner.(*PipelineRunner).cancelJobInternal/* prunner.removeJobFromWaitList/* prunner.*/ensures[T] prunner.*/ensures[ri] prunner.*/call-pre[*.ri]* prunner.*/ensures[C12.keepLive]
 //@ property C07: prunner.*/ensures[C07.*] prunner.*/call-pre[(*PipelineRunner).startJob.timerDone]* prunner.*/ensures[C03.timerTruth] prunner.*/ensures[C03.progress] prunner.(*PipelineRunner).ScheduleAsync/ensures[C05.replace] prunner.(*PipelineRunner).startJob/ensures[skipCanceled] prunner.(*PipelineRunner).resolveDequeueJobAction/ensures* prunner/writers[PipelineJob.startTimer] prunner/writers[PipelineJob.StartDelay] prunner.*/monitor[RI] prunner.*/ensures[ri] prunner.*/call-pre[*.ri]* prunner/writers[PipelineJob.Created] prunner/writers[PipelineJob.Start]
 //@ property C10: prunner.*/ensures[C10.*] prunner.(*PipelineRunner).initialLoadFromStore/loop* prunner.buildJobFromPersistedJob/* helper.*/ensures* store/globalinit[json] store.(*JsonDataStore).Load/ensures[C09.load] prunner.*/assert[C10.*] prunner.(*PipelineJob).isRunning/ensures* prunner.(*PipelineRunner).SaveToStore/loop3/* prunner.(*PipelineRunner).SaveToStore/loop4/* lemma/cntZero* prunner.(*PipelineRunner).initialLoadFromStore/ensures* store.(*JsonDataStore).Save/* prunner.(*PipelineRunner).SaveToStore/*[C10.complete] prunner.(*PipelineRunner).initialLoadFromStore/*[C10.listedEach] prunner.(*PipelineRunner).runningJobsCount/*
-//@ property C11: prunner.(*PipelineRunner).requestPersist/ensures[req] prunner.*/ensures[C11.*] prunner.*/assert[C11.*] prunner.(*PipelineRunner).Shutdown/loop* prunner.(*PipelineRunner).Shutdown/monitor[RI] prunner.(*PipelineRunner).Shutdown/ensures[T] prunner.(*PipelineRunner).Shutdown$1/* prunner/writers[PipelineRunner.isShuttingDown] prunner.*/guarantee[gate] prunner.(*PipelineRunner).Shutdown/guarantee[T] prunner/interference[captured] prunner.(*PipelineRunner).Shutdown$1/frame* prunner.*/guarantee[noStart] prunner.*/guarantee[noNew] prunner.*/monitor[RI] prunner.*/ensures[ri] prunner.*/call-pre[*.ri]* prunner.(*PipelineRunner).startJobsOnWaitList/*[C11.*] prunner.(*PipelineRunner).SaveToStore/loop*[C11.noNew]
+//@ property C11: prunner.NewPipelineRunner$1/loop1/inv-*[C11.*] prunner.(*PipelineRunner).requestPersist/ensures[req] prunner.*/ensures[C11.*] prunner.*/assert[C11.*] prunner.(*PipelineRunner).Shutdown/loop* prunner.(*PipelineRunner).Shutdown/monitor[RI] prunner.(*PipelineRunner).Shutdown/ensures[T] prunner.(*PipelineRunner).Shutdown$1/* prunner/writers[PipelineRunner.isShuttingDown] prunner.*/guarantee[gate] prunner.(*PipelineRunner).Shutdown/guarantee[T] prunner/interference[captured] prunner.(*PipelineRunner).Shutdown$1/frame* prunner.*/guarantee[noStart] prunner.*/guarantee[noNew] prunner.*/monitor[RI] prunner.*/ensures[ri] prunner.*/call-pre[*.ri]* prunner.(*PipelineRunner).startJobsOnWaitList/*[C11.*] prunner.(*PipelineRunner).SaveToStore/loop*[C11.noNew]
 //@ property C12: prunner.(*pipelineJobsSorter).Len/ensures* prunner.(*pipelineJobsSorter).Swap/ensures* prunner.(*pipelineJobsSorter).*/safety prunner.(*pipelineJobsSorter).Less/call-pre* prunner.*/ensures[C12.*] prunner.(*PipelineRunner).SaveToStore/* prunner.removeJobFromList/* prunner.byCreationTimeDesc/ensures* prunner.*/assert[dist*] prunner.*/monitor[RI] prunner.(*PipelineRunner).determineIfJobShouldBeRemoved/* prunner.*/assert[wl*] prunner.(*PipelineRunner).initialLoadFromStore/*[C10.noLoss] prunner.(*PipelineRunner).SaveToStore/*[C01.listKeepsLive] prunner.(*PipelineRunner).initialLoadFromStore/*[C10.listedEach]
 //@ property C13: prunner.*/lock[read] prunner.*/lock[write] prunner.*/lockproto[*] prunner.*/call-pre[*.lockmode]* prunner.*/call-pre[*.guard]* prunner.*/call-pre[*.empty]* prunner.*/ensures[unpublished] prunner/interference[captured] prunner.*/guarantee[*]
 //@ property C15: prunner.*/loop*/inv-*[C15.*] prunner.*/ensures[C15.*] prunner.(*PipelineRunner).resolveScheduleAction/ensures[range] prunner.(*PipelineRunner).isRunning/loop* prunner.(*PipelineRunner).ReadJob/* prunner.(*PipelineRunner).IterateJobs/ensures* prunner.(*PipelineRunner).ListPipelines/ensures* prunner.(*PipelineRunner).ListPipelines/loop* prunner.(*PipelineJob).isRunning/ensures* prunner.*/monitor[RI] prunner.*/ensures[ri] prunner.*/call-pre[*.ri]* prunner/writers[PipelineJob.End] prunner/writers[PipelineJob.Created] prunner/writers[PipelineJob.Start] prunner.(*PipelineRunner).SaveToStore/*[C01.listKeepsLive]
